@@ -66,12 +66,12 @@ HARNESSES = [
          cases=[dict(id="w2c2", defines={"WIN": 2, "CHUNKS": 2, "__NO_CTYPE": None}, tier="quick"),
                 dict(id="w3c2", defines={"WIN": 3, "CHUNKS": 2, "__NO_CTYPE": None}, tier="thorough"),
                 dict(id="w2c3", defines={"WIN": 2, "CHUNKS": 3, "__NO_CTYPE": None}, tier="thorough")]),
-    dict(name="pax_loop", file="pax_loop.c", label="bounded(PAX record <= 24 bytes)", defines=CT,
+    dict(name="pax_loop", file="pax_loop.c", label="bounded(PAX record <= 16 bytes)", defines=CT,
          pre_instrument_flags=["--replace-calls", "find_handler:stub_find_handler",
                                "--replace-calls", "apply_handler:stub_apply_handler"],
          malloc_fail=True, flags=["--memory-leak-check"], timeout=1500, weight=9,
-         cases=[_pax(n, "quick", "bounded(PAX record <= 24 bytes)") for n in (6, 12, 24)] +
-               [_pax(n, "thorough", "bounded(PAX record <= 48 bytes)") for n in (36, 48)]),
+         cases=[_pax(n, "quick", "bounded(PAX record <= 16 bytes)") for n in (6, 12, 16)] +
+               [_pax(n, "thorough", "bounded(PAX record <= 24 bytes)") for n in (20, 24)]),
     dict(name="read_header", file="read_header.c", label="bounded(header records per call <= 3)",
          defines=CT, unwind=513, malloc_fail=True, timeout=900, weight=7,
          nochecks=["--conversion-check"],
